@@ -36,6 +36,9 @@ enum Op {
 	Unspent,
 	/// validate_tx of a transaction spending a mature coinbase
 	ValidateTx,
+	/// validate_tx of a transaction with an NRD kernel (the path that takes both write locks and applies the
+	/// kernels to a read-only extension and to the recent-kernel index of a batch it discards)
+	ValidateTxNrd,
 	/// miner: set_txhashset_roots on a template on top of the current head
 	SetRoots,
 	Compact,
@@ -70,6 +73,8 @@ fn harnesses(tier: Tier) -> Vec<Harness> {
 		Harness { bounds: (1, 2), name: "a:competing-forks+reader", universe: "forks", prelude: base5.clone(), threads: vec![("peer1", vec![Op::B("m5")]), ("peer2", vec![Op::B("f5")]), ("reader", vec![Op::Read, Op::Read])] },
 		Harness { bounds: (1, 2), name: "b:header-first+block+reader", universe: "forks", prelude: base5.clone(), threads: vec![("hdr", vec![Op::H("m5")]), ("blk", vec![Op::B("m5")]), ("reader", vec![Op::Read])] },
 		Harness { bounds: (1, 2), name: "c:block+validate_tx+get_unspent", universe: "forks", prelude: base5.clone(), threads: vec![("peer", vec![Op::B("m5")]), ("pool", vec![Op::ValidateTx]), ("api", vec![Op::Unspent])] },
+		// NRD universe (NRD enabled, header version 4+): the delivered block carries an NRD kernel of the same excess
+		Harness { bounds: (1, 2), name: "c2:nrd-block+validate_tx(nrd)+reader", universe: "nrd", prelude: vec!["*nrd11"], threads: vec![("peer", vec![Op::B("n12")]), ("pool", vec![Op::ValidateTxNrd]), ("reader", vec![Op::Read])] },
 		Harness { bounds: (1, 2), name: "d:miner-template+block", universe: "forks", prelude: base5.clone(), threads: vec![("miner", vec![Op::SetRoots]), ("peer", vec![Op::B("m5")])] },
 		// every remaining public read path against a block writer and against a header writer
 		Harness { bounds: (1, 1), name: "r1:api-sweep+block", universe: "forks", prelude: base5.clone(), threads: vec![("api", (0..API_N / 2).map(Op::Api).collect()), ("peer", vec![Op::B("m5")])] },
@@ -235,6 +240,14 @@ fn run_op(chain: &Chain, cx: &Ctx, op: &Op, tname: &str, log: &Mutex<Vec<Obs>>) 
 			// spends coinbase 3 (below the fork point, spent by no block of the universe): must be accepted
 			obs.ok = r.is_ok();
 		}
+		Op::ValidateTxNrd => {
+			let tx = &cx.tree.txs.iter().find(|t| t.0 == "t:nrd2").expect("t:nrd2").1;
+			let r = chain.validate_tx(tx);
+			obs.what = format!("validate_tx(nrd) -> {:?}", r.as_ref().map(|_| ()).map_err(|e| format!("{:?}", e)));
+			// before n12 the last instance of the excess is at height 10 and the next block is 12: admitted; after
+			// n12 it is at 12 and the next block is 13: refused as too recent. Either serial answer is right.
+			obs.ok = match &r { Ok(_) => true, Err(e) => format!("{:?}", e).contains("NRDRelativeHeight") };
+		}
 		Op::SetRoots => {
 			let head = chain.head_header().expect("head_header");
 			let kc = uni::keychain(99);
@@ -349,7 +362,7 @@ fn sequential_fps(h: &Harness, base: &Path, sc: &uni::Scratch, cx: &Arc<Ctx>) ->
 		}
 		out
 	}
-	let lists: Vec<Vec<(usize, Op)>> = h.threads.iter().enumerate().map(|(t, (_, ops))| ops.iter().filter(|o| !matches!(o, Op::Read | Op::Unspent | Op::ValidateTx | Op::SetRoots | Op::Validate | Op::Segmenter | Op::Api(_))).map(|o| (t, o.clone())).collect()).collect();
+	let lists: Vec<Vec<(usize, Op)>> = h.threads.iter().enumerate().map(|(t, (_, ops))| ops.iter().filter(|o| !matches!(o, Op::Read | Op::Unspent | Op::ValidateTx | Op::ValidateTxNrd | Op::SetRoots | Op::Validate | Op::Segmenter | Op::Api(_))).map(|o| (t, o.clone())).collect()).collect();
 	let mut set = BTreeSet::new();
 	for order in interleavings(&lists) {
 		let dir = sc.fresh("seq");
@@ -427,6 +440,11 @@ impl<'a> Explore<'a> {
 			rep.violation(format!("{}:panic:{}", self.h.name, t), format!("thread {} panicked: {}", t, m), case.clone());
 		}
 		for o in &x.obs {
+			if o.what.starts_with("validate_tx") {
+				// which of the serial answers a schedule produced (both must occur over the exploration)
+				let short: String = o.what.chars().take(60).collect();
+				rep.outcome(&format!("{}:{}", self.h.name, short));
+			}
 			if !o.ok {
 				rep.violation(format!("{}:op-failed:{}", self.h.name, o.what.split(' ').next().unwrap_or("")), format!("{}: {}", o.thread, o.what), case.clone());
 			}
@@ -506,6 +524,9 @@ impl<'a> Explore<'a> {
 }
 
 fn universe(sc: &uni::Scratch, name: &str) -> Tree {
+	if name == "nrd" {
+		return crate::c13::universe_nrd(sc);
+	}
 	crate::c09::universe(sc, name)
 }
 
@@ -522,17 +543,22 @@ fn run(tier: Tier, shard: usize, n: usize) -> Report {
 				continue;
 			}
 		}
+		// the NRD flag is per thread: the scheduler's threads take it from this process-wide default
+		let nrd = h.universe == "nrd";
+		uni::NRD_DEFAULT.store(nrd, std::sync::atomic::Ordering::SeqCst);
+		uni::init_thread();
 		if !trees.contains_key(h.universe) {
 			trees.insert(h.universe, Arc::new(universe(&sc, h.universe)));
 		}
 		let tree = trees.get(h.universe).unwrap().clone();
-		let kc = uni::keychain(if h.universe == "forks" { 21 } else { 22 });
+		let kc = uni::keychain(if h.universe == "forks" { 21 } else if nrd { 32 } else { 22 });
 		let tx = uni::spend_coinbase(&kc, 3, uni::REWARD, &[(7777, uni::REWARD - 2_000_000)], 4243);
 		let cx = Arc::new(Ctx { tree: tree.clone(), tx, probe_commit: uni::commit_of(&kc, 3, uni::REWARD) });
 		let base = sc.fresh("base");
 		{
 			let mut live = Live::open(&tree, &base, Options::NONE);
-			for e in crate::c09::parse_events(&tree, &h.prelude) {
+			let prelude: Vec<&str> = if h.prelude == vec!["*nrd11"] { vec!["B(n1)", "B(n2)", "B(n3)", "B(n4)", "B(n5)", "B(n6)", "B(n7)", "B(n8)", "B(n9)", "B(n10)", "B(n11)"] } else { h.prelude.clone() };
+			for e in crate::c09::parse_events(&tree, &prelude) {
 				let o = live.apply(&e);
 				assert!(o.ok, "prelude failed: {}", o.err);
 			}
@@ -590,14 +616,18 @@ impl Engine for C17 {
 		let hs = harnesses(Tier::Thorough);
 		let h = hs.iter().find(|h| h.name == hn).ok_or("unknown harness")?;
 		let sc = uni::Scratch::new("c17r");
+		let nrd = h.universe == "nrd";
+		uni::NRD_DEFAULT.store(nrd, std::sync::atomic::Ordering::SeqCst);
+		uni::init_thread();
 		let tree = Arc::new(universe(&sc, h.universe));
-		let kc = uni::keychain(if h.universe == "forks" { 21 } else { 22 });
+		let kc = uni::keychain(if h.universe == "forks" { 21 } else if nrd { 32 } else { 22 });
 		let tx = uni::spend_coinbase(&kc, 3, uni::REWARD, &[(7777, uni::REWARD - 2_000_000)], 4243);
 		let cx = Arc::new(Ctx { tree: tree.clone(), tx, probe_commit: uni::commit_of(&kc, 3, uni::REWARD) });
 		let base = sc.fresh("base");
 		{
 			let mut live = Live::open(&tree, &base, Options::NONE);
-			for e in crate::c09::parse_events(&tree, &h.prelude) {
+			let prelude: Vec<&str> = if h.prelude == vec!["*nrd11"] { vec!["B(n1)", "B(n2)", "B(n3)", "B(n4)", "B(n5)", "B(n6)", "B(n7)", "B(n8)", "B(n9)", "B(n10)", "B(n11)"] } else { h.prelude.clone() };
+			for e in crate::c09::parse_events(&tree, &prelude) {
 				live.apply(&e);
 			}
 		}
